@@ -178,14 +178,15 @@ Definition analyze (pfuel cfuel : nat) (files : list (text * text)) (root : text
   let disk_files := map (fun tp => (pf_path (snd tp), content_of (fst tp) (snd tp))) tagged in
   let w : Includes.world fpath text := {| Includes.disk := fun p => Includes.assoc p disk_files; Includes.extra := [] |} in
   let rootp := components root in
-  (* fs.id(root); host.set_file_content(root_id, contents[root] or ""); host.set_root_file(&mut fs, root_id) *)
-  let '(rid, fs1) := Includes.assign Includes.fs_init rootp in
+  (* fs.id(root); host.set_file_content(root_id, contents[root] or ""); host.set_root_file(&mut fs, root_id):
+     Host.touch on the initial state (its set_open of the root's own content changes nothing: the only path it
+     overlays is the root's, with the content the disk has for it, or with the empty text of an absent root,
+     which includes nothing) *)
   let root_content := match Includes.assoc rootp disk_files with
                       | Some c => c
                       | None => {| Includes.c_tag := N.of_nat (List.length files); Includes.c_items := [] |}
                       end in
-  let db1 := Includes.set_fc Includes.db_init rid root_content in
-  match Includes.set_root_file cfuel w fs1 db1 rid with
+  match Host.touch cfuel w Host.st_init rootp root_content with
   | Includes.Done (fs2, db2) =>
       match Includes.sroot db2 with
       | None => None
